@@ -299,6 +299,8 @@ def c02(X, src, mode="exec"):
         tk, toks = run_tokens(X, src)
         if tk == "ok" and any(t.type == X.tokenize.Token.ERRORTOKEN and t.string.isspace() for t in toks):
             v["feature"] = "whitespace-like-character-skipped"
+        elif tk == "ok" and any(t.type == X.tokenize.Token.NAME and not t.string.isidentifier() for t in toks):
+            v["feature"] = "non-identifier-name"
         elif str(ref.msg).startswith("inconsistent use of tabs"):
             v["feature"] = "tab-consistency"
         elif str(ref.msg).startswith("f-string") and tk == "ok" and any(t.type == X.tokenize.Token.FSTRING_START for t in toks):
